@@ -724,9 +724,9 @@ func TestHarness(t *testing.T) {
 	o := out.New(*fOut)
 	defer o.Close()
 	r := gen.New(*fSeed*1000003 + uint64(*fShard) + 4242)
-	n := 40
+	n := 480
 	if *fTier == "thorough" {
-		n = 1200
+		n = 16000
 	}
 	n = n/(*fNShard) + 1
 	all := []packet.QOS{0, 1, 2}
